@@ -166,7 +166,8 @@ def results_close(a, b, rtol=1e-9, atol=1e-12, tables=None, index_map=None, mask
             ma = np.abs(da["mdot_from_kg_per_s"].values.astype(np.float64))
             mb = np.abs(db["mdot_from_kg_per_s"].values.astype(np.float64))
             scale = max(np.nanmax(ma) if len(ma) and not np.all(np.isnan(ma)) else 0.0, 1e-3)
-            zero_rows = (ma < 1e-6 * scale) | (mb < 1e-6 * scale)
+            thr = max(1e-6 * scale, 1e-7)
+            zero_rows = (ma < thr) | (mb < thr)
         for c in da.columns:
             va = da[c].values.astype(np.float64)
             vb = db[c].values.astype(np.float64)
